@@ -228,6 +228,8 @@ impl Prop for C20 {
         let mut samples = Vec::new();
         let mut classes: std::collections::BTreeMap<String, u64> = Default::default();
         let mut seen_sigs: Vec<String> = Vec::new();
+        let mut pre_seen: Vec<String> = Vec::new();
+        let mut differing: u64 = 0;
         for (i, bytes) in corpus.iter().enumerate() {
             let base = dumps[0].get(i);
             if base.is_none() {
@@ -248,8 +250,26 @@ impl Prop for C20 {
             }
             for (si, d) in dumps.iter().enumerate().skip(1) {
                 if d.get(i) != Some(base) {
-                    // minimise on the two builds that disagree
+                    // minimise on the two builds that disagree; a change that touches many
+                    // cases is minimised a few times per (builds, kind of line) only
                     let pair = [names[0], names[si]];
+                    let pre_kind = d
+                        .get(i)
+                        .map(|o| {
+                            base.lines()
+                                .zip(o.lines())
+                                .find(|(x, y)| x != y)
+                                .map(|(x, _)| x.split(' ').next().unwrap_or("").to_owned())
+                                .unwrap_or_else(|| "shape".into())
+                        })
+                        .unwrap_or_else(|| "missing".into());
+                    let pre = format!("{}/{}", names[si], pre_kind);
+                    differing += 1;
+                    let n_pre = pre_seen.iter().filter(|x| **x == pre).count();
+                    if n_pre >= 2 || pre_seen.len() >= 8 {
+                        break;
+                    }
+                    pre_seen.push(pre);
                     let mut cur = bytes.clone();
                     let differs = |cands: &[Vec<u8>], tag: &str| -> Vec<bool> {
                         match run_dumpers(&env.work, tag, cands, &pair) {
@@ -327,6 +347,7 @@ impl Prop for C20 {
             "generated_cases": corpus.len(),
             "feature_sets": SETS.iter().map(|s| format!("{}: [{}]", s.0, s.1)).collect::<Vec<_>>(),
             "class_histogram_of_the_no_feature_build": classes,
+            "cases_on_which_two_builds_differ": differing,
         });
         out
     }
